@@ -1,6 +1,6 @@
 #!/bin/bash
 # run every claimed check (quick tier) and print one summary line each
-cd /verif
+cd "$(dirname "$0")/.."
 for p in $(python3 -c "import json;print(' '.join(c['property_id'] for c in json.load(open('MANIFEST.json'))['checks']))"); do
   out=$(python3 tools/check.py --property $p --tier ${1:-quick} ${2:-} 2>&1); rc=$?
   echo "$p rc=$rc $(echo "$out" | grep -c '^VIOLATION') violations, $(echo "$out" | grep -c '^KNOWN-FINDING') known | $(echo "$out" | tail -1)"
